@@ -1508,6 +1508,13 @@ func (e *c12Env) selectorOracle(out *c12Outcome, modelOK, race bool) error {
 	for _, t := range blockTxs {
 		delete(onlyPending, string(t.Txid))
 	}
+	// "confirmed" is the LEDGER's view (IsTxInTrunk): a transaction carried by a stored main-chain block counts even
+	// while the state machine has not played that block (or has just refused to)
+	for _, bi := range nm.LM.M.MainChain() {
+		for _, t := range nm.BlockTxs[bi] {
+			delete(onlyPending, string(t.Txid))
+		}
+	}
 	handed := map[string]int{}
 	for i, r := range runs {
 		if reqs[i].Kind != "select" || r.skip != "" || r.err != nil {
